@@ -34,6 +34,13 @@ theorem decoder_guards_present :
     n_zero_width_guard_calls = 2 ∧ map_rejects_odd_count = true ∧ n_unchecked_count_decrement = 0 ∧
     read_bytes_allocates_length_field = false := by decide
 
+/-- the constructors the model charges against the budget of body-less array elements are the ones the
+    source charges: null, true, false, uint0, ulong0, list0 — and no constructor that has a body, so that
+    arrays of integers, timestamps, uuids … are bounded by their bytes alone -/
+theorem source_zero_width_codes : ∀ c : Nat, zeroWidth c = zero_width_codes.contains c := by
+  intro c
+  simp [zeroWidth, zero_width_codes, List.contains_cons, Bool.or_assoc]
+
 /-- the limits used by the model are the source's -/
 theorem limits : MAX_NESTING_DEPTH = 128 ∧ MAX_ARRAY_COUNT = 65536 := by decide
 
